@@ -47,6 +47,14 @@ Inductive HasType : env -> expr -> binding -> Prop :=
 | T_For G i c s body ti kc ts tb :
     HasType G i ti -> HasType G c (CBool, kc) -> HasType G s ts -> HasType G body tb ->
     HasType G (EFor i c s body) (CInt, KTemp)
+| T_ForInRange G x a b body ka kb tb :
+    HasType G a (CInt, ka) -> HasType G b (CInt, kb) ->                (* both bounds are int *)
+    HasType ([(x, (CInt, KConst))] :: G) body tb ->                    (* loop variable: const int *)
+    HasType G (EForInRange x a b body) (CInt, KTemp)
+| T_ForInArr G x arr body e ka tb :
+    HasType G arr (CArr e, ka) ->                                      (* a one-dimensional array *)
+    HasType ([(x, (e, ka))] :: G) body tb ->         (* loop variable: the element, as const as arr *)
+    HasType G (EForInArr x arr body) (CInt, KTemp)
 | T_Lambda G fd : FunOk G true fd -> HasType G (ELambda fd) (fd_cty fd, KTemp)
 | T_ArrLit G es t tes :
     HasTypes G es tes -> ty_wf R t = true -> check_elems t tes = true ->
@@ -213,6 +221,12 @@ Proof.
     destruct (is_bool tc) eqn:E; inv H2. apply is_bool_eq in E. subst. econstructor; eauto.
   - intros i c s body IHi IHc IHs IHb G b H. cbn in H. bind_inv. destruct a0 as [tc kc]. cbn in H4.
     destruct (is_bool tc) eqn:E; inv H4. apply is_bool_eq in E. subst. econstructor; eauto.
+  - intros x a b body IHa IHb IHbody G r H. cbn in H. bind_inv.
+    destruct a0 as [ta ka], a1 as [tb kb]. cbn in H2.
+    destruct (is_int ta) eqn:E1; [|discriminate]. destruct (is_int tb) eqn:E2; [|discriminate].
+    cbn in H2. bind_inv. inv H3. apply is_int_eq in E1, E2. subst. econstructor; eauto.
+  - intros x a body IHa IHbody G r H. cbn in H. bind_inv. destruct a0 as [ta ka]. cbn in H1.
+    destruct ta; try discriminate. bind_inv. inv H2. econstructor; eauto.
   - intros fd IH G b H. cbn in H. bind_inv. inv H1. destruct a. constructor. now apply IH.
   - intros es t IH G b H. cbn in H. bind_inv.
     destruct (ty_wf R t) eqn:E1; [|discriminate]. destruct (check_elems t a) eqn:E2; inv H1.
